@@ -228,7 +228,13 @@ def check_nack(ctx, rng, fe):
             reason = rng.choice(REASONS) if rng.random() < 0.8 else rng.getrandbits(rng.randint(1, 64))
             iw = bytes(make_interest(names[target], InterestParam(nonce=rng.getrandbits(32), can_be_prefix=(target == 'N'), lifetime=4000)))
             hs = header_set(rng)
-            env = rc.make_lp(fragment=iw, nack_reason=reason, headers=hs, pit_token=rng.choice([None, None, b'', b'\x01\x02\x03\x04', gen.rand_bytes(rng, 8)]))
+            if rng.random() < 0.12:
+                # the NackReason element is optional in NDNLPv2: a Nack header without it is a Nack all the same, its reason "None" (0)
+                reason = 0
+                env = rc.make_lp(fragment=iw, nack=True, headers=hs, pit_token=rng.choice([None, None, b'\x01\x02\x03\x04']))
+                ctx.event('nack-header-without-reason-element')
+            else:
+                env = rc.make_lp(fragment=iw, nack_reason=reason, headers=hs, pit_token=rng.choice([None, None, b'', b'\x01\x02\x03\x04', gen.rand_bytes(rng, 8)]))
             snap = T.snapshot()
             expect_keys = [k for k, t in T.pend.items() if not t.done() and knames.get(k) == names[target]]
             w = {'frontend': fe, 'target': target, 'reason': reason, 'headers': [hex(t) for t, v in hs]}
@@ -397,5 +403,5 @@ def run(ctx):
     ctx.need_class('token-interest-signed')
     ctx.need_class('token-interest-parameterised')
     ctx.assumptions = ['envelope headers are generated in ascending type order before the fragment',
-                       'a Nack header without a reason is outside the statement (observation only, see C06)',
+                       'a Nack header without a NackReason element is a Nack with reason None = 0 (NDNLPv2)',
                        'PIT-token rules are judged on the current front-end; the legacy one documents no PIT-token support']
